@@ -127,6 +127,8 @@ func c15PanicClass(p any) string {
 		return "nil-deref"
 	case strings.Contains(s, "reflect:"):
 		return "reflect-other"
+	case s == "impossible":
+		return "eino-impossible" // a stream of the wrong chunk type reached a typed reader
 	}
 	return "other"
 }
